@@ -124,8 +124,20 @@ def offsets(c):
     return out
 
 
+CUSTOM_TZ = (b'BEGIN:VCALENDAR\r\nVERSION:2.0\r\nPRODID:-//verif//custom tz//EN\r\nBEGIN:VTIMEZONE\r\nTZID:%s\r\n'
+             b'BEGIN:STANDARD\r\nDTSTART:19701025T030000\r\nTZOFFSETFROM:+0545\r\nTZOFFSETTO:+0445\r\nTZNAME:VST\r\n'
+             b'RRULE:FREQ=YEARLY;BYMONTH=10;BYDAY=-1SU\r\nEND:STANDARD\r\nBEGIN:DAYLIGHT\r\nDTSTART:19700329T020000\r\n'
+             b'TZOFFSETFROM:+0445\r\nTZOFFSETTO:+0545\r\nTZNAME:VDT\r\nRRULE:FREQ=YEARLY;BYMONTH=3;BYDAY=-1SU\r\nEND:DAYLIGHT\r\n'
+             b'END:VTIMEZONE\r\nBEGIN:VEVENT\r\nUID:c1\r\nDTSTART;TZID=%s:20240615T120000\r\nDTEND;TZID=%s:20241215T130000\r\n'
+             b'RDATE;TZID=%s:20240101T000000,20240701T000000\r\nSUMMARY:uses the custom zone\r\nEND:VEVENT\r\nEND:VCALENDAR\r\n')
+
+
 def wellformed_inputs(ctx):
     import icalendar
+    for k in range(3):
+        # a calendar that defines its own time zone (an id no provider knows) and uses it
+        tzid = b'Verif/Custom-' + str(ctx.seed).encode() + b'-' + str(k).encode() + ctx.rng.choice([b'', b'/Sub', b'_x'])
+        yield f'custom-tz-{k}', CUSTOM_TZ % (tzid, tzid, tzid, tzid)
     for name, data in calgen.fixtures():
         try:
             data.decode('utf-8')
@@ -157,6 +169,11 @@ def correspondence(ctx):
 
 def check_invariance(ctx, name, data, provider):
     import icalendar
+    def fresh():
+        # the cache of parsed VTIMEZONEs is process-wide: reset it so that every text is parsed as if it were
+        # the first one in the process (otherwise the reference parse hides what a variant fails to register)
+        getattr(icalendar, 'use_' + provider)()
+    fresh()
     try:
         ref = icalendar.Calendar.from_ical(data, multiple=True)
     except ValueError:
@@ -176,6 +193,7 @@ def check_invariance(ctx, name, data, provider):
         ctx.evaluated(('rw', name, tuple(applied), provider, hash(x)), changed)
         inp = {'name': name, 'rewrites': applied, 'provider': provider,
                'variant': x if isinstance(x, str) else x.decode('utf-8'), 'is_str': isinstance(x, str)}
+        fresh()
         try:
             got = icalendar.Calendar.from_ical(x, multiple=True)
         except ValueError as e:
